@@ -96,9 +96,6 @@ class Axis:
         return False
 
     def grade(self) -> None:
-        # start afresh: grade() can be called repeatedly
-        # (mesh written twice, vertices moved in between)
-        self.wires.reset()
         self.wires.grade()
 
     @property
